@@ -276,7 +276,7 @@ pub fn run(ctx: &mut Ctx) {
     let cases = enumerate(ctx.seed);
     ctx.run_cases("enumerated", &cases, judge);
     ctx.exhaustive_parts.push("326 orderings; 3905 sequences with repetition; 31 x fields x 17 type substitutions; foreign field at every position; missing domain type".into());
-    let n = ctx.tier.pick(5000, 200_000);
+    let n = ctx.tier.pick(50_000, 500_000);
     ctx.run_prop("mixture", n, || crate::gen::tape(300).prop_map(gen_mixture), judge);
     ctx.floor_abs("accepted-well-formed", 31 * 2);
     ctx.floor_abs("refused-ill-formed", 4000);
